@@ -88,7 +88,9 @@ func buildQueryOpt(c *Ctx, i int, wantModel bool, forCVC5 bool, noQuant bool) st
 			// earlier obligations are assumed only when they are cheap
 			// path facts (quantifier-free safety / call-site conditions)
 			switch p.Class {
-			case "safe", "requires", "assert", "guarded":
+			case "assert":
+				// explicit proof steps are assumed once stated, quantified or not
+			case "safe", "requires", "guarded":
 				if strings.Contains(p.Formula, "(forall ") || strings.Contains(p.Formula, "(exists ") {
 					continue
 				}
